@@ -30,6 +30,8 @@ RULE = ("per exported kernel class: random parameter values across their ranges 
         "batch) change with coinciding n*d / n*(d+1) / n*(2d+1) / n1*n2 / B*n, alternating full / diag / x1-only / eager / "
         "last_dim_is_batch, train()/eval() and parameter re-sets in between; every call compared with the Spec")
 TRUSTED = ["translator harness/translate/g5_formulas.py (Python ast -> scalar terms; in-place aliasing semantics)",
+           "translators harness/translate/g5_kernels.py (per-pair tensor classes) and g5_axes.py (tensors as index functions "
+           "over symbolic shapes; data-dependent tests are configuration inputs; one batch element)",
            "libm-class exp/sqrt/sin/cos/pow of Lean Float and of torch agree to 1e-10 relative",
            "modelled not verified: torch tensor primitives, torch.cdist, linear_operator to_dense()"]
 ASSUMPTIONS = ["float64 only; tolerance 1e-10 relative + 1e-12*scale + first-order bound of the rounding of the "
